@@ -33,6 +33,7 @@ type Effect struct {
 	Key   string // cid / cache key / marker text
 	Value []byte // cache value
 	Space string // cache namespace (directory|address)
+	Node  ipld.Node // the block, for "block" effects
 }
 
 // Net is the simulated network: peers, links, per-peer block stores.
@@ -208,7 +209,7 @@ func (p *Peer) addLocal(n ipld.Node) {
 	_, had := p.blocks[n.Cid()]
 	p.blocks[n.Cid()] = n
 	if !had {
-		p.effects = append(p.effects, Effect{Kind: "block", Key: n.Cid().String()})
+		p.effects = append(p.effects, Effect{Kind: "block", Key: n.Cid().String(), Node: n})
 	}
 	p.mu.Unlock()
 }
